@@ -51,6 +51,17 @@ Definition split_host_port (hp : str) : option str :=
 (** Host key used for the lookup (ServiceMap.ServiceForRequest). *)
 Definition request_host_key (host : str) : str :=
   match index_byte host colon with
+  | Some (S _) =>
+    match split_host_port host with
+    | Some h => if contains_byte h colon then x5b :: h ++ [x5d] else h   (* IPv6 literal: brackets kept *)
+    | None => host
+    end
+  | _ => host
+  end.
+
+(** the tree as given: "[::1]:80" was looked up as "::1", "[::1]" as "[::1]" *)
+Definition request_host_key_pinned (host : str) : str :=
+  match index_byte host colon with
   | Some (S _) => match split_host_port host with Some h => h | None => host end
   | _ => host
   end.
